@@ -384,47 +384,55 @@ def rule_rs_decerr(cx, rep, port='py'):
     ms = {m.name: m for m in it.body if isinstance(m, ast.FunctionDef)}
     readers = {m.name for m in ms.values() if any(isinstance(c, ast.Call) and call_name(c) == 'self.stream.read' for c in walk_no_nested(m))}
     rep.require_count('methods that read the stream', len(readers), 2, it)
-    # call sites of the readers inside the class
-    for rname in sorted(readers):
-        sites = []
+    # "exposed" methods: those from which a decoding error of stream.read() can escape - the methods that read, and every method
+    # that calls an exposed method outside a try whose handler catches UnicodeDecodeError.  No exposed method may be an entry
+    # point of the class (a method that nothing in the class calls): the raw decoding exception would reach the user.
+    def protecting_try(m, c):
+        t = c
+        while t is not None and t is not m:
+            par = getattr(t, 'parent', None)
+            if isinstance(par, ast.Try) and t in par.body:
+                for h in par.handlers:
+                    if h.type is None or 'UnicodeDecodeError' in node_text(h.type) or dotted(h.type) in ('Exception', 'UnicodeError', 'ValueError'):
+                        return (par, h)
+            t = par
+        return None
+    exposed = {r: [r] for r in readers}       # method -> chain down to the method that reads
+    guarded = []
+    changed = True
+    while changed:
+        changed = False
         for m in ms.values():
             for c in walk_no_nested(m):
-                if isinstance(c, ast.Call) and call_name(c) == 'self.' + rname:
-                    sites.append((m, c))
-        if not sites:
-            rep.undecided(rname, ms[rname], 'reader method has no caller in the class')
-            continue
-        for m, c in sites:
-            key = '{} called from {}'.format(rname, m.name)
-            t = c
-            protected = None
-            while t is not None and t is not m:
-                par = getattr(t, 'parent', None)
-                if isinstance(par, ast.Try) and t in par.body:
-                    for h in par.handlers:
-                        if h.type is not None and 'UnicodeDecodeError' in node_text(h.type) or h.type is None or (h.type is not None and dotted(h.type) in ('Exception', 'UnicodeError', 'ValueError')):
-                            protected = (par, h)
-                    if protected:
-                        break
-                t = par
-            if protected is None:
-                rep.violated(key, c, '{}() reads the stream but this call is not inside a try that handles UnicodeDecodeError: an invalid byte surfaces as a raw decoding exception'.format(rname))
-                continue
-            h = protected[1]
-            raises = [r for r in ast.walk(h) if isinstance(r, ast.Raise)]
-            ok = raises and all(r.exc is not None and 'RbqlIOHandlingError' in node_text(r.exc) for r in raises) and not cfgmod.CFG(h.body).exists_path(cfgmod.CFG(h.body).entry, lambda n: n.kind == 'exit') if False else (raises and all(r.exc is not None and 'RbqlIOHandlingError' in node_text(r.exc) for r in raises))
-            last_raises = isinstance(h.body[-1], ast.Raise)
-            if not ok or not last_raises:
-                rep.violated(key, h, 'the decode-error handler does not re-raise as RbqlIOHandlingError on every path (`{}`)'.format(node_text(h.body[-1])))
-            else:
-                rep.holds(key, c, 'inside try; UnicodeDecodeError -> RbqlIOHandlingError')
-    # the handler's message / class
-    grs = ms['get_row_simple']
-    # all other callers of get_row_simple need no own handler (it handles it itself)
-    rep.holds('get_row_simple is the only reader entry', grs, 'get_row_rfc/get_record reach the stream only through get_row_simple')
-    other = [m.name for m in ms.values() if m.name not in readers and m.name != 'get_row_simple' and any(isinstance(c, ast.Call) and call_name(c) in ('self.' + r for r in readers) for c in walk_no_nested(m))]
-    if other:
-        rep.violated('reader entry', ms[other[0]], '{} calls a stream-reading method directly, bypassing the decode-error handler of get_row_simple'.format(other[0]))
+                if isinstance(c, ast.Call) and (call_name(c) or '').startswith('self.') and (call_name(c) or '')[5:] in exposed:
+                    callee = call_name(c)[5:]
+                    pr = protecting_try(m, c)
+                    if pr is None:
+                        if m.name not in exposed:
+                            exposed[m.name] = [m.name] + exposed[callee]
+                            changed = True
+                    elif (m.name, callee, id(c)) not in [(a_, b_, id(c_)) for a_, b_, c_, _ in guarded]:
+                        guarded.append((m.name, callee, c, pr))
+    # an exposed method is an entry point unless it is private to the class (leading underscore) and only called - not handed out as a
+    # bound method - by the class's own methods
+    handed_out = {n.attr for m in ms.values() for n in walk_no_nested(m) if isinstance(n, ast.Attribute) and dotted(n.value) == 'self' and n.attr in ms and not (isinstance(getattr(n, 'parent', None), ast.Call) and n.parent.func is n)}
+    for name in sorted(exposed):
+        key = '{} reads the stream'.format(name) if name in readers else '{} reaches the stream unguarded'.format(name)
+        if not name.startswith('_') or name in handed_out:
+            rep.violated(key, ms[name], '{}() is an entry point of the reader and reaches stream.read() ({}) outside every try that handles UnicodeDecodeError: an invalid byte surfaces as a raw decoding exception'.format(name, ' -> '.join(exposed[name])))
+        else:
+            rep.holds(key, ms[name], 'only called from inside the class; every chain of calls to it passes a try that handles UnicodeDecodeError')
+    if not guarded:
+        rep.undecided('decode-error handler', it, 'no call of a stream-reading method inside a try that handles UnicodeDecodeError was found')
+    for mname, callee, c, (tr, h) in guarded:
+        key = '{} called from {}'.format(callee, mname)
+        raises = [r for r in ast.walk(h) if isinstance(r, ast.Raise)]
+        ok = raises and all(r.exc is not None and 'RbqlIOHandlingError' in node_text(r.exc) for r in raises)
+        last_raises = isinstance(h.body[-1], ast.Raise)
+        if not ok or not last_raises:
+            rep.violated(key, h, 'the decode-error handler does not re-raise as RbqlIOHandlingError on every path (`{}`)'.format(node_text(h.body[-1])))
+        else:
+            rep.holds(key, c, 'inside try; UnicodeDecodeError -> RbqlIOHandlingError')
 
 
 # ------------------------------------------------------------------------------------------------ warning flags
